@@ -101,6 +101,17 @@ def r10_1(ctx: Ctx, rule="R10.1"):
         if isinstance(n, ast.If) and any(isinstance(s, ast.Assign) and norm(s.targets[0]) == MOLV[0] for s in n.body):
             order_if = n
     if order_if is None:
+        # the pair ordered by a sort / min / max instead of by the test that reverses the restraint pairs
+        for s_ in walk_no_nested(f.node):
+            if isinstance(s_, ast.Assign) and any(isinstance(c_, ast.Call) and call_name(c_) in ("sorted", "sort", "min", "max") for c_ in ast.walk(s_.value)) \
+                    and {"self.start", "self.end"} <= {norm(x_) for x_ in ast.walk(s_.value) if isinstance(x_, ast.Attribute)}:
+                rev_ifs = [n_ for n_ in walk_no_nested(f.node) if isinstance(n_, ast.If) and any(
+                    isinstance(a_, ast.Assign) and norm(a_.targets[0]) == p_restr for a_ in n_.body + n_.orelse)]
+                ctx.ob(rule, f, s_, False,
+                       "which molecule is fixed and which is mobile is decided by the same test that reverses the restraint pairs -- here the "
+                       "pair is ordered by `%s` while the pairs are reversed under `%s`: on a tie (equal atom counts) the two disagree and "
+                       "each (i, j) designates the wrong atoms" % (norm(s_.value)[:60], norm(rev_ifs[0].test) if rev_ifs else "?"), node=s_)
+                return
         raise AnalysisError("R10.1: role-assignment branch (molecules = [...]) not found in align_molecules")
 
     def mol_list(stmts):
